@@ -188,7 +188,7 @@ def cases(tier, seed, shard, nshards):
                     yield {"kind": "enum", "mode": mode, "cuts": [], "reqs": reqs}
                 i += 1
     rng = random.Random(f"{seed}:C18:{shard}")
-    n = (1000 if tier == "quick" else 36000) // nshards
+    n = (1000 if tier == "quick" else 96000) // nshards
     for c in range(n):
         nreq = rng.choice([1, 2, 2, 3, 3, 4, 5, 6])
         reqs = [gen_req(rng, f"R{shard}c{c}q{j}", last=(j == nreq - 1)) for j in range(nreq)]
